@@ -238,15 +238,18 @@ func Universe(c *chain.Chain, ctx sdk.Context) []objQuery {
 			if err != nil || col.Collection == nil {
 				continue
 			}
-			owners := map[string]bool{}
 			for _, n := range col.Collection.NFTs {
 				tid := n.Id
-				owners[n.Owner] = true
 				add("nft", "nft/"+did+"/"+tid, true, func(c *chain.Chain, ctx sdk.Context, _ int64) (proto.Message, error) {
 					return c.K.NFT.NFT(ctx, &nfttypes.QueryNFTRequest{DenomId: did, TokenId: tid})
 				})
 			}
-			for o := range owners {
+		}
+		// per-owner answers for every account (an owner who held and no longer
+		// holds must be answered with the same empty list / zero)
+		for _, d := range resp.Denoms {
+			did := d.Id
+			for _, o := range accts {
 				owner := o
 				add("nft", "owner/"+did+"/"+owner, false, func(c *chain.Chain, ctx sdk.Context, _ int64) (proto.Message, error) {
 					return c.K.NFT.NFTsOfOwner(ctx, &nfttypes.QueryNFTsOfOwnerRequest{DenomId: did, Owner: owner, Pagination: page()})
@@ -285,11 +288,10 @@ func Universe(c *chain.Chain, ctx sdk.Context) []objQuery {
 			}
 			for _, a := range accts {
 				owner := a
+				// every account is asked: a holder who transferred or burned
+				// everything keeps a zero entry that the answer shows
 				r, err := c.K.MT.Balances(ctx, &mttypes.QueryBalancesRequest{Owner: owner, DenomId: did, Pagination: page()})
-				if err != nil || len(r.Balance) == 0 {
-					continue
-				}
-				add("mt", "balance/"+did+"/"+owner, true, func(c *chain.Chain, ctx sdk.Context, _ int64) (proto.Message, error) {
+				add("mt", "balance/"+did+"/"+owner, err == nil && len(r.Balance) > 0, func(c *chain.Chain, ctx sdk.Context, _ int64) (proto.Message, error) {
 					return c.K.MT.Balances(ctx, &mttypes.QueryBalancesRequest{Owner: owner, DenomId: did, Pagination: page()})
 				})
 			}
@@ -318,6 +320,19 @@ func Universe(c *chain.Chain, ctx sdk.Context) []objQuery {
 			})
 			return false
 		})
+		provs := map[string]bool{}
+		c.K.Service.IterateServiceBindings(ctx, func(b servicetypes.ServiceBinding) bool {
+			provs[b.Provider] = true
+			return false
+		})
+		for pv := range provs {
+			prov := pv
+			// what the provider has earned and not yet withdrawn (zero-height:
+			// documented as refunded, see rebase.go)
+			add("service", "earned/"+prov, false, func(c *chain.Chain, ctx sdk.Context, _ int64) (proto.Message, error) {
+				return c.K.Service.EarnedFees(ctx, &servicetypes.QueryEarnedFeesRequest{Provider: prov})
+			})
+		}
 		c.K.Service.IterateWithdrawAddresses(ctx, func(owner, _ sdk.AccAddress) bool {
 			o := owner.String()
 			add("service", "waddr/"+o, false, func(c *chain.Chain, ctx sdk.Context, _ int64) (proto.Message, error) {
